@@ -7,6 +7,12 @@ CLAIMED = {
  'C05': ("Coq proof over the list model of FitInfo.keep (Keep.v: antitone-prefix lemma, 6x6 composition law) + exhaustive correspondence of the extracted model with FitInfo.keep",
          "Theorems C05_A/N/CDEF/prefix/columns/looser_first/idempotent hold for ranked lists of any length over extended rationals; the extracted nkeep is run against FitInfo.keep on every ranked vector of length <=4 (<=5 thorough) over {0,1,2.5,7,inf,nan} x every selector x every selector pair, plus random long vectors.",
          "Trusts: Coq kernel; ExtrOcamlBasic+ExtrOcamlZBigInt; ocaml driver; harness (generator, comparison, oracle). numpy's comparison/slicing semantics are exercised, not proved. Thresholds equal to an attained value are outside the property.", "DESIGN.md 7/C05"),
+ 'C20': ("Coq proof over the statement-by-statement model of Source.from_ascii (SrcAscii.v: slices, strides, truncating division, setter cross-checks) + correspondence on generated token lists incl. every column count",
+         "Theorems C20_layout/reject/accept/flags/eof hold for token lists of any length; the extracted from_ascii_m is run against Source.from_ascii on valid lines (all flag vectors n<=3), every column count 0..3n+6 for n<=12, bad flags, bad numbers; round trips through to_ascii, dict and pickle are checked against the printed precision.",
+         "Trusts: Coq kernel; extraction directives; driver; harness. int()/float() conversion of tokens is an oracle computed by Python; text formatting (to_ascii) is exercised, not modelled.", "DESIGN.md 7/C20"),
+ 'C18': ("Coq proof that the one-pass two-writer loop of filter_output equals (filter good, filter not-good) with Python truthiness of chi=/cpd= (FilterOut.v) + correspondence through real fit files",
+         "Theorems C18_partition/one_side/chi/cpd hold for any record list; the extracted filter_output_m is run against filter_output on generated fit files (file and list input, automatic and explicit names, chi/cpd/both/none/zero thresholds, inf and NaN best values) and both outputs are read back and compared record by record.",
+         "Trusts: Coq kernel; extraction; driver; harness. pickle is a lossless store (exercised). Thresholds equal to the best chi2 are outside the property.", "DESIGN.md 7/C18"),
 }
 NOT_YET = {}
 props = [json.loads(l) for l in open(os.path.join(V, 'properties.jsonl'))]
